@@ -10,7 +10,9 @@ package agent
 import (
 	"fmt"
 	"net"
+	"strings"
 	"testing"
+	"time"
 
 	"github.com/postalsys/muti-metroo/internal/verifkit"
 )
@@ -88,11 +90,17 @@ func c12AgentsTopo(r *verifkit.R, ci int, t fmTopo, echo *fmEcho) {
 			if len(path) >= 2 {
 				multihop++
 			}
+			if !fmSettle(m, 15*time.Second) {
+				r.Add("pairs_skipped_previous_tunnel_still_live", 1)
+				continue
+			}
 			meshed, out := fmDialEcho(m, x, fmExitIP(y), echo.port, fmt.Sprintf("canary-%s-%d-%d", t.Name, x, y))
 			rw.Outcome = out
 			rows = append(rows, rw)
+			lo := strings.ToLower(out)
 			switch {
-			case len(out) >= 8 && out[:8] == "watchdog":
+			case strings.HasPrefix(out, "watchdog") || strings.Contains(lo, "timeout") || strings.Contains(lo, "timed out") || strings.Contains(lo, "deadline"):
+				// an elapsed timer (ours or the agent's 30 s open timeout) is never a verdict
 				r.Inconclusive(fmt.Sprintf("%s %d->%d: %s", t.Name, x, y, out))
 			case !meshed && out == "":
 				r.Inconclusive(fmt.Sprintf("%s %d->%d: dial fell back to a direct connection", t.Name, x, y))
